@@ -253,7 +253,7 @@ def generate(tier, seed):
     cases.append(_mk(rng, _refs(rng, 1), [_rec(rng, 1, unmapped=False)]))
     cases.append(_mk(rng, _refs(rng, 3), [_rec(rng, 3, unmapped=False, end10=True)]))
     # 4. random files
-    for t in range(150 if not thorough else 1200):
+    for t in range(150 if not thorough else 1500):
         nrefs = rng.choice([0, 1, 1, 1, 2, 2, 2, 3, 3, 3, 3, 3])
         refs = _refs(rng, nrefs)
         nrec = rng.choice([1, 2, 3, 4, 5, 6, 8])
